@@ -87,6 +87,11 @@ def run(args):
         "kitchen": "pub let level = 1;\npub fn describe() -> str { \"kitchen\" }\nfn main() { }\n",
         "tools": "pub let level = 2;\npub fn describe() -> str { \"tools\" }\nfn main() { }\n",
         "shelf": "pub let level = 3;\npub fn describe() -> str { \"shelf\" }\nfn main() { }\n"})
+    # libraries whose initializer consists of host imports only (no globals), reached directly and through each other
+    multi.append({"main": "import check from util;\nimport probe from deep;\nfn main() { check(); probe(); println(\"done\"); }\n",
+                  "util": "import tag from hostb;\npub fn check() { println(\"checked\", tag()); }\nfn main() { }\n",
+                  "deep": "import look from deeper;\npub fn probe() { look(); }\nfn main() { }\n",
+                  "deeper": "import { tag, num } from hosta;\npub fn look() { println(\"looked\", tag(), num); }\nfn main() { }\n"})
     mreqs = []
     for mods in multi:
         for b in ("vm", "tree"):
